@@ -489,3 +489,12 @@ def withtry(a, b):
         if a < b:
             r += e + f
     return r
+
+
+def tryreturn(a, b):
+    # a comparison whose result is returned from inside a try block: the end of the protected range (TryEnd)
+    # lies between the comparison and the return
+    try:
+        return (6 // a) == b
+    except ZeroDivisionError:
+        return None
